@@ -30,6 +30,8 @@ def _alphabets(tier):
     al["Amid"] = [H(3, a, r) for a in (2, 3, 4) for r in (0, 1, 5)] + [H(3, 7, 0), H(3, 0, 0)]
     # remainders differing in the bit that a resize moves into the quotient
     al["Asplit"] = [H(3, a, r) for a in (0, 3, 7) for r in (1, hi | 1, 2)] + [H(3, 4, hi)]
+    # 18 hashes spread over a 16/32-slot table (used pre-filled, see configs)
+    al["Afill"] = [H(4, a, r) for a in range(16) for r in (1,)]
     if tier == "thorough":
         al["A1"] = [H(3, a, r) for a in range(8) for r in (1, 2)]
         al["A3"] = [H(3, a, r) for a in (0, 3, 6, 7) for r in (0, 1, 2, 3)]
@@ -72,6 +74,8 @@ class QFSystem(System):
         cfgs = []
         als = _alphabets(tier)
         for name, al in als.items():
+            if name == "Afill":
+                continue  # only used pre-filled (below)
             cfgs.append({"alpha": name, "auto": False, "ops": [], "via_key": False, "depth": None, "cost": 30 * 2 ** len(al)})
         # through the key interface (a supplied hash function must survive resizes)
         cfgs.append({"alpha": "Awrap", "auto": False, "ops": [], "via_key": True, "depth": None, "cost": 30 * 2**11})
@@ -82,6 +86,10 @@ class QFSystem(System):
         cfgs.append({"alpha": "Amid", "auto": True, "ops": ["resize"], "via_key": False, "depth": None, "cost": 90 * 2**11})
         cfgs.append({"alpha": "Awrap", "auto": False, "ops": ["resize", "merge"], "via_key": False, "depth": None,
                      "cost": 90 * 2**11})
+        # nearly full larger tables (load >= 0.85 at quotient 4 and 5): the filter starts with 13 stored hashes, events
+        # move 5 hashes in and out and resize by hand while automatic expansion is on
+        cfgs.append({"alpha": "Afill", "auto": True, "ops": ["resize"], "via_key": False, "depth": None, "prefill": 13, "q0": 4,
+                     "cost": 90 * 2**9})
         if prop in ("C14", "C19") and tier == "quick":
             # these are state oracles: a subset of the driver suffices on every change
             cfgs = [c for c in cfgs if c["alpha"] in ("A0", "Awrap", "Asplit")]
@@ -113,15 +121,20 @@ class QFSystem(System):
 
     def initial(self, cfg):
         hf = _key_hash_table(self._alpha(cfg)) if cfg["via_key"] else None
-        f = QuotientFilter(quotient=3, auto_expand=cfg["auto"], hash_function=hf)
-        return State(f, {"set": [], "q": 3})
+        f = QuotientFilter(quotient=cfg.get("q0", 3), auto_expand=cfg["auto"], hash_function=hf)
+        pre = []
+        for h in self._alpha(cfg)[: cfg.get("prefill", 0)]:
+            f.add_alt(h)
+            pre.append(h)
+        return State(f, {"set": sorted(pre), "q": f.quotient})
 
     def events(self, cfg, st):
         al = self._alpha(cfg)
         evs = []
-        for i in range(len(al)):
+        lo = max(0, cfg.get("prefill", 0) - 1)  # a pre-filled configuration only moves the last few hashes
+        for i in range(lo, len(al)):
             evs.append(("add", i))
-        for i in range(len(al)):
+        for i in range(lo, len(al)):
             evs.append(("remove", i))
         if "resize" in cfg["ops"]:
             for q in (None, 3, 4, 5, 2):
@@ -246,7 +259,8 @@ class QFSystem(System):
         f = post.impl
         if ev[0] == "resize" and obs[0] == "ok":
             want = ev[1] if ev[1] is not None else pre.impl.quotient + 1
-            if f.quotient != want:
+            # with auto_expand on, re-inserting into a table that is at or above the maximum load expands it further
+            if f.quotient != want and not (cfg["auto"] and f.quotient > want and len(pre.model["set"]) >= 0.85 * (1 << want) - 1):
                 bad("C04", "qf.resize_sets_quotient", {"want": want, "got": f.quotient})
         return out
 
@@ -291,6 +305,26 @@ class QFSystem(System):
                 bad("C04", "qf.size_is_power", {"size": f.size, "q": f.quotient})
             if f.elements_added != len(mset):
                 bad("C04", "qf.elements_added", {"expected": len(mset), "obs": f.elements_added, "after": ev})
+            if "merge" in cfg["ops"] or cfg["via_key"]:
+                # merged into an empty receiver of the same size the set arrives complete, and the two filters
+                # stay independent objects afterwards
+                g = self.clone(post).impl
+                recv = QuotientFilter(quotient=g.quotient, auto_expand=False, hash_function=g._hash_func)
+                mr = call(recv.merge, g)
+                if mr[0] == "ok":
+                    got = call(recv.get_hashes)
+                    if got[0] != "ok" or sorted(got[1]) != sorted(mset):
+                        bad("C04", "qf.merge_into_empty_is_copy", {"expected": sorted(mset), "obs": got, "after": ev})
+                    else:
+                        if mset:
+                            call(g.remove_alt, sorted(mset)[0])
+                        for h in al[:2]:
+                            call(g.add_alt, h ^ 0x80)
+                        again = call(recv.get_hashes)
+                        if again[0] != "ok" or sorted(again[1]) != sorted(mset):
+                            bad("C04", "qf.merged_filters_are_independent", {"expected": sorted(mset), "obs": again, "after": ev})
+                elif len(mset) < g.size:
+                    bad("C04", "qf.merge_into_empty_is_copy", {"obs": mr, "after": ev})
         if "C14" in props:
             if f.elements_added != len(mset):
                 bad("C14", "qf.elements_added", {"expected": len(mset), "obs": f.elements_added, "after": ev})
